@@ -118,6 +118,11 @@ func rebase(ref *Ref, v *url.URL, notEqual bool) (Ref, bool) {
 		return *ref, false
 	}
 
+	if u.RawQuery == "" && v.RawQuery != "" {
+		// a relative $ref inherits the query of its base: a target without query can't be expressed relatively
+		return *ref, false
+	}
+
 	docPath := v.Path
 	v.Path = path.Dir(v.Path)
 
@@ -128,6 +133,10 @@ func rebase(ref *Ref, v *url.URL, notEqual bool) (Ref, bool) {
 	}
 
 	newBase.Fragment = u.Fragment
+	if u.RawQuery != v.RawQuery {
+		// the query is part of the target's location: keep it, unless inherited from the base
+		newBase.RawQuery = u.RawQuery
+	}
 
 	if strings.HasPrefix(u.Path, docPath) {
 		newBase.Path = strings.TrimPrefix(u.Path, docPath)
